@@ -137,17 +137,27 @@ def write_evidence(prop, ev):
     return path
 
 
+def _leave(rc):
+    """Exit NOW: threads of the code under test that never end (a provider left running by a defect is not a daemon
+    thread) must not keep the check from returning its verdict."""
+    try:
+        sys.stdout.flush()
+        sys.stderr.flush()
+    finally:
+        os._exit(rc if isinstance(rc, int) else (0 if rc is None else 1))
+
+
 def main_wrapper(fn):
     """Run a check's main(); anything that is not a verdict is machinery failure (exit 2)."""
     try:
         rc = fn()
     except Machinery as exc:
         print('MACHINERY-FAILURE: %s' % exc)
-        sys.exit(2)
-    except SystemExit:
-        raise
+        _leave(2)
+    except SystemExit as exc:
+        _leave(exc.code)
     except BaseException:  # noqa
         traceback.print_exc()
         print('MACHINERY-FAILURE: unexpected exception in the harness')
-        sys.exit(2)
-    sys.exit(rc)
+        _leave(2)
+    _leave(rc)
